@@ -120,7 +120,13 @@ def _polarity(f, at_, region, op, want):
                     else:
                         break
                 src = f.canon_op(o)
-                found = (is_neg, src == want)
+                from_helper = src == want
+                if not from_helper and want and want[0][0] == "call":
+                    # through a re-wrapping `Ok(v)` and a `?` (the helper's
+                    # result handed on by an inlined closure)
+                    cs_ = ops.try_chain_source(f, o)
+                    from_helper = cs_ is not None and cs_.bb == want[0][1]
+                found = (is_neg, from_helper)
     return found
 
 
